@@ -479,6 +479,12 @@ func (vx *Vaxis) Refresh() {
 	vx.Render()
 }
 
+// skippedCell marks a cell of the last frame that is covered by a wide
+// character. It never equals a cell an application can set, so that the cell is
+// redrawn as soon as it is no longer covered: what a terminal shows in the
+// remaining half of an overwritten wide character is not defined
+var skippedCell = Cell{Character: Character{Width: -1}}
+
 func (vx *Vaxis) render() {
 	vx.mu.Lock()
 	defer vx.mu.Unlock()
@@ -543,7 +549,7 @@ outerNew:
 						break
 					}
 					// null out any cells we end up skipping
-					vx.screenLast.buf[row][col+i] = Cell{}
+					vx.screenLast.buf[row][col+i] = skippedCell
 				}
 				col += skip
 				continue
@@ -744,7 +750,7 @@ outerNew:
 					break
 				}
 				// null out any cells we end up skipping
-				vx.screenLast.buf[row][col+i] = Cell{}
+				vx.screenLast.buf[row][col+i] = skippedCell
 			}
 			col += skip
 		}
